@@ -73,7 +73,7 @@ func main() {
 						fmt.Printf("FVS\t%q: %#v,\n", p.FuncName(f), varList(fvs))
 					}
 				}
-				p.structFields(func(key, typ string, v *types.Var) { fmt.Printf("FLD\t%q: %q,\n", key, typ) })
+				p.structFields(func(key, typ string, v *types.Var, idx int) { fmt.Printf("FLD\t%q: %q,\n", key, fmt.Sprintf("%d|%s", idx, typ)) })
 				for _, f := range p.Funcs {
 					if f.Parent() == nil {
 						fmt.Printf("SIG\t%q: %q,\n", p.FuncName(f), p.sigKey(f))
